@@ -668,7 +668,8 @@ class _WState(object):
             if len(codes) != len(vals):
                 raise Undecided('struct.pack arity mismatch', e)
             return [Item('int', fmt=c, field=self.field(v), node=e, value=v) for c, v in zip(codes, vals)]
-        v = self.f(e)
+        reads_chain = any(isinstance(x, ast.Attribute) and x.attr in ('params', 'coreparams') for x in ast.walk(e))
+        v = self.f(e) if not reads_chain else UNKNOWN
         if isinstance(v, (bytes, bytearray)):
             return [Item('const', value=bytes(v), node=e)]
         if isinstance(e, ast.Call):
